@@ -108,9 +108,7 @@ def dep_cone(relpath, seen=None):
         return seen
     seen.add(relpath)
     txt = open(os.path.join(COQ, relpath)).read()
-    for m in re.finditer(r"From ACV Require (?:Import|Export)\s+([^.]*(?:\.[A-Za-z_][^.\s]*)*)\.", txt):
-        pass
-    for m in re.finditer(r"From ACV Require (?:Import|Export)((?:\s+[A-Za-z_][\w.]*)+)\s*\.", txt):
+    for m in re.finditer(r"From ACV Require (?:Import|Export)((?:\s+[A-Za-z_]\w*(?:\.[A-Za-z_]\w*)*)+)\s*\.(?=\s)", txt):
         for mod in m.group(1).split():
             p = mod.replace(".", "/") + ".v"
             if os.path.exists(os.path.join(COQ, p)):
